@@ -256,6 +256,36 @@ func scnStaking(ctx *check.JobCtx) {
 			w.EndBlock()
 		}
 	}
+	if !w.Halted() {
+		// threshold recipe: a node sits just above the share threshold; an existing delegator tops up, then a
+		// brand-new delegator dilutes the node below the threshold; later the reverse (undelegation lifts it back)
+		v0 := vals[0]
+		n := nodes[3]
+		w.AddVstorage(n, 3_000_000)
+		val, _ := w.C.App.StakingKeeper.GetValidator(w.C.Ctx(), v0)
+		total := val.Tokens.Int64()
+		// after the two delegations of d0 (800 000) the node is still at >= 10 %; the 150 000 of a brand-new
+		// delegator push it just below
+		own := (total+800_000)/9 + 5_000
+		w.Deliver("delegate", n, nil, delegateMsg(n, v0, own))
+		w.ResetNode(n, world.StatusAll, nil, "")
+		w.EndBlock()
+		d0, d1 := dels[0], dels[1]
+		w.Deliver("delegate", d0, nil, delegateMsg(d0, v0, 500_000))
+		w.EndBlock()
+		w.Deliver("delegate", d0, nil, delegateMsg(d0, v0, 300_000)) // top-up of an existing delegation
+		w.EndBlock()
+		fresh := w.Acct("vop2")
+		if _, isVal := w.C.App.StakingKeeper.GetValidator(w.C.Ctx(), sdk.ValAddress(fresh.Addr)); !isVal {
+			w.Deliver("delegate", fresh, nil, delegateMsg(fresh, v0, 150_000)) // first delegation of a new delegator
+		}
+		w.Deliver("delegate", d1, nil, delegateMsg(d1, v0, total/50))
+		w.EndBlock()
+		w.Deliver("undelegate", d1, nil, stakingtypes.NewMsgUndelegate(d1.Addr, v0, coin(total/50)))
+		w.Deliver("undelegate", n, nil, stakingtypes.NewMsgUndelegate(n.Addr, v0, coin(own)))
+		w.EndBlock()
+		w.Case("c20:threshold-recipe")
+	}
 	ops := int(ctx.ArgInt("ops", 150))
 	amounts := []int64{1, 1_000_000, 9_000_000, 11_111_111, 25_000_000, 120_000_000, 400_000_000, 5_000_000_000}
 	for i := 0; i < ops && !w.Halted(); i++ {
